@@ -1,4 +1,5 @@
 mod drive_ctx;
+mod drive_data;
 mod drive_eval;
 mod drive_ops;
 mod drive_refs;
@@ -47,6 +48,8 @@ fn main() {
                 "c02pairs" => drive_ops::drive_c02pairs(seed, thorough, &mut out),
                 "c15" => drive_ops::drive_c15(seed, thorough, &mut out),
                 "c16" => drive_ops::drive_c16(seed, thorough, &mut out),
+                "c17" => drive_data::drive_c17(seed, thorough, &mut out),
+                "c18" => drive_data::drive_c18(seed, thorough, &mut out),
                 _ => panic!("unknown family"),
             };
             out.flush().unwrap();
